@@ -468,6 +468,7 @@ impl TropicalSubgraphTable {
         let j = uniform.from_f64(self.table[subgraph.id].j_function);
 
         let mut cum_sum = uniform.zero();
+        let mut last = None;
         for edge in edges_in_subgraph {
             let graph_without_edge = subgraph.pop_edge(edge);
             let p_e = uniform.from_f64(self.table[graph_without_edge.id].j_function)
@@ -476,6 +477,15 @@ impl TropicalSubgraphTable {
             cum_sum += &p_e;
             if &cum_sum >= uniform {
                 return (edge, graph_without_edge);
+            }
+            last = Some((edge, graph_without_edge));
+        }
+
+        // The probabilities sum to one only up to rounding: a uniform number below one that
+        // lies above the rounded cumulative sum belongs to the last edge.
+        if let Some(last) = last {
+            if uniform < &uniform.one() {
+                return last;
             }
         }
 
